@@ -152,8 +152,8 @@ def inequalities(run, closure, z, K3, N, n, zm, z0s, usts, L, pr, h, zmx, defaul
 
     The stretched grid is z = -h log(A(zeta)) with A(k) = E0 - k (E0 - Em)/n, E0 = exp(-z0/h), Em = exp(-zm/h):
     a node exists (is not NaN) iff A(k) > 0 ("below the asymptote of the map").  The clauses are proved for
-    every node below the asymptote; that every node of the DEFAULT grid (h = zmx = 2 zm) with n >= 2 layers is
-    below it is proved as well.  For n = 1 and for explicit (stretch, domain_height) the premise stays a
+    every node below the asymptote; that every node of the DEFAULT grid (h = zmx = 2 zm) with n >= 1 layers is
+    below it is proved as well (n >= 1).  For explicit (stretch, domain_height) the premise stays a
     premise (bounded stand-in; it is false for a domain height far above the stretch height)."""
     Kx, Ky, Kz = K3
     k = sym.fresh_int("ki")
@@ -206,11 +206,12 @@ def inequalities(run, closure, z, K3, N, n, zm, z0s, usts, L, pr, h, zmx, defaul
     run.oblige("premises-of-the-order-clauses-satisfiable", SBool(True), kind="cover", expect="sat", props=props, hyps=hy,
                assuming=pre + pin + [(k >= 0) & (k + 1 < N), A(k + 1) > 0, A(N - 1) > 0, usts > 0, zmx >= zm])
     if default_grid:
-        # Every node of the default grid (h = zmx = 2 zm) with n >= 2 layers lies below the asymptote.  Three steps:
+        # Every node of the default grid (h = zmx = 2 zm) with n >= 1 layers lies below the asymptote.  Three steps:
         #  (1) the code's np.arange arguments equal start = 0, step = zm/n, stop = (zm/D)(E0 - EX) + zm/n with
         #      D = E0 - Em (exact identities, value view, exp applications as atoms);
         #  (2) a polynomial lemma over fresh reals e0, em, ex (no uninterpreted function): from the arange length fact
-        #      M*step < stop, 0.6065 < em < e0 < 1, ex > 0.3678, n >= 2 follows e0 - M (e0 - em)/n > 0;
+        #      M*step < stop, 0.6065 < em < 0.6066, em < e0 < 1, 0.3678 < ex < 0.3679, n >= 1 follows e0 - M (e0 - em)/n > 0
+        #      (for n = 1 the integrality of M matters: M < r + 1 < 3 leaves M <= 2 and A(2) = 2 em - e0 > 0);
         #  (3) the clause itself from the arange fact (A2), (1), the instance of (2) at the exp applications and the
         #      order / numeric instances for them (A8).
         D = E0 - Em
@@ -225,7 +226,7 @@ def inequalities(run, closure, z, K3, N, n, zm, z0s, usts, L, pr, h, zmx, defaul
             eqs = [a_.zr() == 0, st_.zr() == Sstep.zr(), b_.zr() == Sstop.zr()]
         e0, em, ex, zq, M, nq = z3.Real("e0"), z3.Real("em"), z3.Real("ex"), z3.Real("zq"), z3.Int("Mq"), z3.Int("nq")
         prem = lambda e0, em, ex, zq, M, nq: z3.And(  # noqa: E731
-            zq > 0, nq >= 2, M >= 0, em > z3.Q(6065, 10000), em < e0, e0 < 1, ex > z3.Q(3678, 10000),
+            zq > 0, nq >= 1, M >= 0, em > z3.Q(6065, 10000), em < z3.Q(6066, 10000), em < e0, e0 < 1, ex > z3.Q(3678, 10000), ex < z3.Q(3679, 10000),
             z3.ToReal(M) * (zq / z3.ToReal(nq)) < zq / (e0 - em) * (e0 - ex) + zq / z3.ToReal(nq))
         concl = lambda e0, em, ex, zq, M, nq: e0 - z3.ToReal(M) * (e0 - em) / z3.ToReal(nq) > 0  # noqa: E731
         run.oblige("lemma.default-grid-below-asymptote (polynomial, fresh reals for the exp values)",
@@ -234,10 +235,10 @@ def inequalities(run, closure, z, K3, N, n, zm, z0s, usts, L, pr, h, zmx, defaul
         zero = Num(0, True)
         hy2 = ar + eqs + [inst] + transc.exp_bounds() + \
             transc.order_instances([E0, Em, EX], extra=[c.arg(0) for c in transc.exp_bounds()[1::2]] + [transc.exp_bounds()[0].arg(0)])
-        run.oblige("grid.every-node-below-the-asymptote [default grid, n >= 2]", A(N - 1) > 0, kind="post", cls="premise", replay=rp, props=props,
-                   hyps=hy2, assuming=pre + [n >= 2, N >= 1])
+        run.oblige("grid.every-node-below-the-asymptote [default grid, n >= 1]", A(N - 1) > 0, kind="post", cls="premise", replay=rp, props=props,
+                   hyps=hy2, assuming=pre + [n >= 1, N >= 1])
         run.oblige("premises-of-the-default-grid-clause-satisfiable", SBool(True), kind="cover", expect="sat", props=props, hyps=hy2,
-                   assuming=pre + pin + [n >= 2, N >= 1])
+                   assuming=pre + pin + [n >= 1, N >= 1])
         run.oblige("grid.asymptote-premise-is-monotone: A(k) >= A(N-1)", A(k) >= A(N - 1), kind="lemma", cls="lemma", props=props, hyps=hy,
                    assuming=pre + rng)
 
